@@ -266,7 +266,8 @@ func timeNow(e *Engine, st *State, args []Value, depth int, pos string, k func(*
 	st.clockN++
 	secs := e.fresh(st, fmt.Sprintf("now%d.unix", st.clockN), SInt)
 	// seconds since the epoch: below 2^32 - 30 days (A-INT) and non-decreasing along the path
-	st.assume(And(Ge(secs, IntLit(0)), Lt(secs, IntLit(4294967296-2592000))))
+	// A-INT: the wall clock reads a time after January 1970 + 30 days and before 2^32 - 30 days
+	st.assume(And(Gt(secs, IntLit(2592000)), Lt(secs, IntLit(4294967296-2592000))))
 	if st.lastNow.S != "" {
 		st.assume(Ge(secs, st.lastNow))
 	}
